@@ -130,18 +130,59 @@ Print Assumptions C19_guard_structure.
    EventsFilter::Push, ExecuteScriptHelper) the LAST ScriptFrame constructed is the user's frame with Sandboxed = true
    (console: the request parameter), and FilteredAddTarget / FilterUtility::EvaluateFilter construct none: no unsandboxed
    frame lies above the user's frame while user code runs (callee frames inherit Sandboxed from the stack top). *)
-Theorem C19_frames_sandboxed : sb_frames_expected = true.
-Proof. exact (eq_refl true <: sb_frames_expected = true). Qed.
+Theorem C19_frames_sandboxed : forall outer : list bool, sb_frames_expected outer = true.
+Proof. intros [|[|] outer]; exact (eq_refl true). Qed.
 Print Assumptions C19_frames_sandboxed.
 
+(* constructor calls (VMOps::ConstructorCall -> Type::Instantiate): DefaultObjectFactory<T> refuses arguments before `new T()`,
+   and DateTime is the only type declared vararg_constructor - the shape the model's ConstructorCall case transcribes *)
+Theorem C19_constructor_facts : sb_cur_ctor_shape = true.
+Proof. exact (eq_refl true <: sb_cur_ctor_shape = true). Qed.
+Print Assumptions C19_constructor_facts.
+
 (* ---------------- the property, for ALL programs, fuel, stores, choice streams ---------------- *)
-(* a sandboxed evaluation leaves globals, constants, config objects, shared containers, files and the config
-   registry as they were *)
+(* a sandboxed evaluation leaves globals, constants, config objects, shared containers, files, the config
+   registry and the process-global singletons as they were; hypothesis [sb_no_global_ctor] = negated signature of the known
+   finding `application-dtor-resets-instance` (no script-constructible type has a constructor / destructor that writes a
+   static datum unconditionally - regenerated fact f_sb_ctor_global = []; false on a tree where Application::~Application()
+   resets m_Instance unconditionally, true once it tests `m_Instance == this`) *)
 Theorem C19_no_write : forall fuel fr e s,
+  sb_no_global_ctor sb_cur_facts = true ->
   sbfr_sandboxed fr = true -> sbfr_top fr = true -> sb_frame_ok sb_cur_facts fr = true ->
   sb_protected (snd (sb_eval sb_cur_facts fuel fr e s)) = sb_protected s.
-Proof. exact (fun fuel fr e s => sb_no_write sb_cur_facts fuel fr e s C19_premises_hold). Qed.
+Proof. exact (fun fuel fr e s Hc => sb_no_write sb_cur_facts fuel fr e s C19_premises_hold Hc). Qed.
 Print Assumptions C19_no_write.
+
+(* WITHOUT that hypothesis (so also on the tree with the finding): the shared heap - globals, constants, config objects,
+   containers - is untouched, and the external component grows only by the logged construction of types on the regenerated
+   list f_sb_ctor_global; and that list holds nothing but the types of the recorded finding (a newly flagged type breaks this) *)
+Theorem C19_writes_only_ctor_effects : forall fuel fr e s,
+  sbfr_sandboxed fr = true -> sbfr_top fr = true -> sb_frame_ok sb_cur_facts fr = true ->
+  sbs_shared (snd (sb_eval sb_cur_facts fuel fr e s)) = sbs_shared s /\
+  exists w, sbs_extern (snd (sb_eval sb_cur_facts fuel fr e s)) = w ++ sbs_extern s /\
+            Forall (fun x => sb_mem x sb_known_ctor_global = true) w.
+Proof.
+  intros fuel fr e s Hs Ht Hok.
+  destruct (sb_writes_only_ctor_effects sb_cur_facts fuel fr e s C19_premises_hold Hs Ht Hok) as (A & w & B & W).
+  split; [exact A|]. exists w. split; [exact B|]. eapply Forall_impl; [|exact W].
+  intros a Ha. assert (forallb (fun x => sb_mem x sb_known_ctor_global) (sbf_ctor_global sb_cur_facts) = true) as K
+    by (exact (eq_refl true <: forallb (fun x => sb_mem x sb_known_ctor_global) (sbf_ctor_global sb_cur_facts) = true)).
+  rewrite forallb_forall in K. apply K. apply sb_mem_in. exact Ha.
+Qed.
+Print Assumptions C19_writes_only_ctor_effects.
+
+(* the finding on the model: on facts that flag IcingaApplication the sandboxed filter `IcingaApplication()` evaluates
+   normally, leaves every VALUE alone and changes the process-global component; on facts that flag nothing it changes nothing *)
+Theorem C19_application_dtor_refuted :
+  (let s' := snd (sb_eval (sb_facts_ctor sb_cur_facts [sb_t_IcingaApplication]) 4 sb_filter_frame sb_ctor_prog sb_ctor_st) in
+   sbs_extern s' = [sb_t_IcingaApplication] /\ sbs_shared s' = sbs_shared sb_ctor_st /\
+   sb_protected s' <> sb_protected sb_ctor_st /\
+   (exists v, fst (sb_eval (sb_facts_ctor sb_cur_facts [sb_t_IcingaApplication]) 4 sb_filter_frame sb_ctor_prog sb_ctor_st) = SbROk v) /\
+   sb_no_global_ctor (sb_facts_ctor sb_cur_facts [sb_t_IcingaApplication]) = false) /\
+  (sb_protected (snd (sb_eval (sb_facts_ctor sb_cur_facts []) 4 sb_filter_frame sb_ctor_prog sb_ctor_st)) = sb_protected sb_ctor_st /\
+   sb_no_global_ctor (sb_facts_ctor sb_cur_facts []) = true).
+Proof. exact (conj sb_ctor_refuted sb_ctor_fixed). Qed.
+Print Assumptions C19_application_dtor_refuted.
 
 (* POSITIONS AND LEFT-HAND SIDES, explicitly.  The statement above is over ALL syntax trees; in particular over what the
    parser builds for a dictionary literal `{ m1; m2; ... }` ([sb_parse_dict]: every member assignment carries the member
@@ -149,9 +190,9 @@ Print Assumptions C19_no_write.
    literal) with ARBITRARY members - assignments with any operator and any left-hand side (globals.x, locals.x, this.x,
    f(..).attr, f(..)[0].vars.k, *ref, ...), at any nesting depth, anywhere inside any expression [ctx] builds around it *)
 Theorem C19_no_write_dict_members : forall fuel fr members (ctx : sb_expr -> sb_expr) s,
-  sbfr_sandboxed fr = true -> sbfr_top fr = true -> sb_frame_ok sb_cur_facts fr = true ->
+  sb_no_global_ctor sb_cur_facts = true -> sbfr_sandboxed fr = true -> sbfr_top fr = true -> sb_frame_ok sb_cur_facts fr = true ->
   sb_protected (snd (sb_eval sb_cur_facts fuel fr (ctx (sb_parse_dict members)) s)) = sb_protected s.
-Proof. exact (fun fuel fr members ctx s => sb_no_write sb_cur_facts fuel fr (ctx (sb_parse_dict members)) s C19_premises_hold). Qed.
+Proof. exact (fun fuel fr members ctx s Hc => sb_no_write sb_cur_facts fuel fr (ctx (sb_parse_dict members)) s C19_premises_hold Hc). Qed.
 Print Assumptions C19_no_write_dict_members.
 
 (* what BindToScope does to a left-hand side, for all of them: a root that is a bare identifier or a string literal becomes
@@ -238,11 +279,11 @@ Print Assumptions C19_native_read_paths.
 (* ... and every native registered side-effect-free, the callback-taking ones included, leaves every cell reachable from
    receiver and arguments and the whole protected component unchanged when invoked below a sandboxed stack top *)
 Theorem C19_safe_native_preserves_reachable : forall fuel fr nm self args s,
-  sbfr_top fr = true -> sb_fun_safe sb_cur_facts (SbNative nm) = true ->
+  sb_no_global_ctor sb_cur_facts = true -> sbfr_top fr = true -> sb_fun_safe sb_cur_facts (SbNative nm) = true ->
   let s' := snd (sb_run sb_cur_facts fuel (SbRqInvoke fr (SbNative nm) self args) s) in
   (forall i, In i (sb_reach s (self :: args)) -> nth i (sbs_shared s') [] = nth i (sbs_shared s) []) /\
   sb_protected s' = sb_protected s.
-Proof. exact (fun fuel fr nm self args s => sb_safe_native_preserves sb_cur_facts fuel fr nm self args s C19_premises_hold). Qed.
+Proof. exact (fun fuel fr nm self args s Hc => sb_safe_native_preserves sb_cur_facts fuel fr nm self args s C19_premises_hold Hc). Qed.
 Print Assumptions C19_safe_native_preserves_reachable.
 
 (* sensitivity: with the purity fact of System#intersection false (what the analysis reports when the ShallowClone of its
@@ -287,12 +328,12 @@ Print Assumptions C19_reads_only_hidden_globals.
 (* the same three statements for ANY facts table that passes the computed premises *)
 Theorem C19_from_premises : forall F fuel fr e s,
   sb_premises F = true -> sbfr_sandboxed fr = true -> sbfr_top fr = true -> sb_frame_ok F fr = true ->
-  sb_protected (snd (sb_eval F fuel fr e s)) = sb_protected s /\
+  (sb_no_global_ctor F = true -> sb_protected (snd (sb_eval F fuel fr e s)) = sb_protected s) /\
   (exists c, sbs_calls (snd (sb_eval F fuel fr e s)) = c ++ sbs_calls s /\ Forall (fun x => snd x = true) c) /\
   (sb_no_hidden_global F s = true -> sbs_reads (snd (sb_eval F fuel fr e s)) = sbs_reads s).
 Proof.
   exact (fun F fuel fr e s Hp Hs Ht Hok =>
-    conj (sb_no_write F fuel fr e s Hp Hs Ht Hok)
+    conj (fun Hc => sb_no_write F fuel fr e s Hp Hc Hs Ht Hok)
       (conj (sb_calls_safe F fuel fr e s Hp Hs Ht Hok) (sb_no_read_hidden F fuel fr e s Hp Hs Ht Hok))).
 Qed.
 Print Assumptions C19_from_premises.
@@ -358,6 +399,7 @@ Print Assumptions C19_console_refuted.
 (* the oracle run over implementation traces accepts every observation consistent with a model run *)
 Theorem C19_oracle_accepts_model : forall fuel fr e s o,
   sbfr_sandboxed fr = true -> sbfr_top fr = true -> sb_frame_ok sb_cur_facts fr = true -> sb_no_hidden_global sb_cur_facts s = true ->
+  sb_no_global_ctor sb_cur_facts = true ->
   sb_obs_of_model sb_cur_facts s (snd (sb_eval sb_cur_facts fuel fr e s)) o -> sb_oracle o = None.
 Proof. exact (fun fuel fr e s o => sb_oracle_accepts_model sb_cur_facts fuel fr e s o C19_premises_hold). Qed.
 Print Assumptions C19_oracle_accepts_model.
